@@ -114,9 +114,21 @@ Observe ==
                                !.debugOn = @ + (IF s.debug THEN 1 ELSE 0)]
   /\ UNCHANGED <<mws, gens>>
 
+\* Twin experiment (C08): middleware a performed a history, middleware b the same history without the rejected
+\* Reconfigure calls.  The state machine says their abstract states are equal; then they must be indistinguishable.
+Pair ==
+  /\ Ev("Pair")
+  /\ LET e == Trace[l] IN
+     /\ bad' = (IF mws[e.a] # mws[e.b] THEN {<<l, "MODEL: the twins' abstract states differ">>}
+                ELSE IF e.fpa # e.fpb THEN {<<l, "a middleware that saw a rejected Reconfigure responds differently from its twin that did not">>}
+                ELSE IF e.cfa # e.cfb THEN {<<l, "Config() of a middleware that saw a rejected Reconfigure differs from its twin's">>}
+                ELSE {}) \cup bad
+     /\ stats' = [stats EXCEPT !.observations = @ + 1, !.compared = @ + 1, !.debugOn = @ + (IF mws[e.a].debug THEN 1 ELSE 0)]
+  /\ UNCHANGED <<mws, ref, cfgfp, gens>>
+
 Init == l = 1 /\ mws = EmptyFn /\ ref = EmptyFn /\ cfgfp = EmptyFn /\ gens = EmptyFn /\ bad = {}
         /\ stats = [segments |-> 0, observations |-> 0, compared |-> 0, weak |-> 0, debugOn |-> 0]
-Next == Reset \/ Skip \/ Zero \/ New \/ Reconf \/ SetDebug \/ Observe
+Next == Reset \/ Skip \/ Zero \/ New \/ Reconf \/ SetDebug \/ Observe \/ Pair
 Spec == Init /\ [][Next]_vars
 
 Final == (l = Len(Trace) + 1) =>
